@@ -30,7 +30,7 @@ Line protocol for C11 (molar / mass / volumetric views and units of measure).
   getprop <s> <dim> <unit> <V>               → x - <float>              (get_property('F_<dim>', units))
   setprop <s> <dim> <unit> <x> <V>           → ok
   unitfor <dim> <unit>                       → x - <factor>             (units= of an indexer constructor)
-  scale <s> <q> | empty <s>                  → ok <0|1> <phase(s)>
+  scale <s> <q> | empty <s> | emptyneg <s>   → ok <0|1> <phase(s)>     (emptyneg = empty_negative_flows)
   rdagg <s> <dim> <V>                        → m <-|v<id>> <row>        (stream.mol / .mass / .vol)
   getflowall <s> <unit> <V>                  → m <-|v<id>> <row>        (get_flow(units) with the default key ...)
   any line carrying V                        → hyp-violated V-is-a-function-of(th,phase,T,P) … if the same key was seen with other volumes
@@ -123,6 +123,7 @@ def parseOp? (t : List String) : Option Op :=
   | ["unitfor", d, u] => do pure (.unitFor (← parseDim? d) u)
   | ["scale", s, q] => do pure (.scale (← s.toNat?) (← parseRat? q))
   | ["empty", s] => do pure (.empty (← s.toNat?))
+  | ["emptyneg", s] => do pure (.removeNegatives (← s.toNat?))
   | ["rdagg", s, d, v] => do pure (.readAgg (← s.toNat?) (← parseDim? d) (← parseMat? v))
   | ["getflowall", s, u, v] => do pure (.getFlowAll (← s.toNat?) u (← parseMat? v))
   | _ => none
